@@ -208,6 +208,89 @@ theorem emit_outs (s : Srv) (ev : Str) (d : Data) (ns : Ns) (to : Target) (skip 
     · simp
     · exact emitFold_outs ns _ tok s [] _ P hP (by simp)
 
+theorem emitFold_callDone (ns : Ns) (payload : List J) (tok : CbTok) (s : Srv) (o : List Out)
+    (rs : List (Sid × Eio)) :
+    (rs.foldl (emitOne ns payload tok) (s, o)).1.callDone = s.callDone := by
+  induction rs generalizing s o with
+  | nil => rfl
+  | cons r rs ih => simp only [List.foldl_cons]; rw [ih]; rfl
+
+theorem emit_callDone (s : Srv) (ev : Str) (d : Data) (ns : Ns) (to : Target) (skip : List Sid)
+    (cb : Option CbTok) : (emit s ev d ns to skip cb).1.callDone = s.callDone := by
+  cases cb with
+  | none => rw [emit_nocb_state]
+  | some tok =>
+    rw [emit_cb_eq]
+    split
+    · rfl
+    · exact emitFold_callDone ..
+
+theorem callStart_callDone (s : Srv) (ev : Str) (d : Data) (ns : Ns) (sid : Sid) :
+    (callStart s ev d ns sid).1.callDone = s.callDone := by
+  unfold callStart; rw [emit_callDone]
+
+theorem handleConnect_callDone (cfg : Cfg) (s : Srv) (t : Eio) (nsp : Option Str) (data : Option J) :
+    (handleConnect cfg s t nsp data).1.callDone = s.callDone := by
+  rcases handleConnect_state cfg s t nsp data with h1 | ⟨rooms', k, _, _, h1 | ⟨p, _, h1⟩⟩ <;>
+    rw [h1] <;> rfl
+
+theorem handleDisconnect_callDone (cfg : Cfg) (s : Srv) (t : Eio) (ns : Ns) (reason : Str) :
+    (handleDisconnect cfg s t ns reason).1.callDone = s.callDone := by
+  rcases handleDisconnect_state cfg s t ns reason with ⟨h1, _⟩ | ⟨sid, k, _, _, h1⟩ <;>
+    rw [h1] <;> rfl
+
+/-- a `call()` result is delivered by a frame only when the frame completes an ACK that matches
+    an outstanding internal callback of the session the transport has on that namespace -/
+def Delivers (dec : Str → Except Err (Packet × Nat)) (cfg : Cfg) (s : Srv) (t : Eio) (v : J)
+    (n : Nat) (args : List J) : Prop :=
+  ∃ nsp id data s₀ sid i, CompletesAck dec s t v nsp id data s₀ ∧
+    sidOf s.rooms (nsp.getD ['/']) t = some sid ∧ id = some i ∧
+    (sid, i, CbTok.call n) ∈ s.cbs ∧ starArgs data = .ok args ∧
+    (handleFrame dec cfg s t v).1.callDone = s.callDone ++ [(n, args)]
+
+theorem delivers_of_handleAck {dec : Str → Except Err (Packet × Nat)} {cfg : Cfg} {s s₀ : Srv}
+    {t : Eio} {v : J} {nsp : Option Str} {id : Option Nat} {data : Option J}
+    (hc : CompletesAck dec s t v nsp id data s₀) :
+    (handleAck s₀ t nsp id data).1.callDone = s.callDone ∨
+      ∃ n args, Delivers dec cfg s t v n args := by
+  have h0 : s₀.callDone = s.callDone := by rcases hc.state with rfl | rfl <;> rfl
+  rcases handleAck_state s₀ t nsp id data with h1 | ⟨sid, i, tok, hs, hi, hm, h1 | ⟨n, args, rfl, ha, h1⟩⟩
+  · left; rw [h1, h0]
+  · left; rw [h1]; exact h0
+  · right
+    rw [hc.rooms.1] at hs
+    rw [hc.rooms.2] at hm
+    refine ⟨n, args, nsp, id, data, s₀, sid, i, hc, hs, hi, hm, ha, ?_⟩
+    rw [handleFrame_of_completesAck cfg hc, h1, ← h0]
+
+theorem callDone_of_frame {dec : Str → Except Err (Packet × Nat)} {cfg : Cfg} {s : Srv}
+    (t : Eio) (v : J) :
+    (handleFrame dec cfg s t v).1.callDone = s.callDone ∨
+      ∃ n args, Delivers dec cfg s t v n args := by
+  have hfc := frameCase dec cfg s t v
+  have key : ∀ r, FrameCase dec cfg s t v r → r = handleFrame dec cfg s t v →
+      r.1.callDone = s.callDone ∨ ∃ n args, Delivers dec cfg s t v n args := by
+    intro r hfc hr
+    cases hfc with
+    | tooMany _ _ => exact Or.inl rfl
+    | reconErr _ _ _ _ => exact Or.inl rfl
+    | binEvent _ _ _ _ _ => exact Or.inl (core_fields (handleEvent_core ..)).callDone
+    | binAck hf h1 h2 h3 h4 => exact delivers_of_handleAck (.binary hf h1 h2 h3 h4)
+    | more _ _ _ => exact Or.inl rfl
+    | undecodable _ _ => exact Or.inl rfl
+    | packet hf hd =>
+      rename_i p natt
+      have hdc := dispatchCase cfg s t p natt
+      generalize dispatchPacket cfg s t p natt = r' at hdc hr
+      cases hdc with
+      | connect _ => exact Or.inl (handleConnect_callDone ..)
+      | disconnect _ => exact Or.inl (handleDisconnect_callDone ..)
+      | event _ => exact Or.inl (core_fields (handleEvent_core ..)).callDone
+      | ack ht => exact delivers_of_handleAck (.text hf hd ht)
+      | binHeader _ => exact Or.inl rfl
+      | other => exact Or.inl rfl
+  exact key _ hfc rfl
+
 /-! ### every callback in any history comes from a frame that completes a matching ACK -/
 
 theorem FrameAt.of_single {dec : Str → Except Err (Packet × Nat)} {cfg : Cfg} {s s₀ : Srv}
